@@ -255,6 +255,9 @@ def dualStep' (st : DualState) (toks : List String) : Option (DualState × Strin
     let a ← st.vals.get? (← i.toNat?)
     let v ← unOp op a
     pure (st, fmtNum v)
+  | ["tonum", i] => do
+    let a ← st.vals.get? (← i.toNat?)
+    pure (st, fmtNum a)
   | ["npowc", i, p] => do
     let a ← st.vals.get? (← i.toNat?); let p ← parseF? p
     pure (st, fmtNum (powNum a p))
